@@ -74,6 +74,9 @@ impl HashChecker {
     let mut hasher = Sha256::new();
     for entry in fs::read_dir(path)?.into_iter() {
       hasher.update(entry?.file_name().as_encoded_bytes());
+      // Terminate every name (a NUL byte cannot occur in a file name), so that different listings such as {"a", "b"}
+      // and {"ab"} do not hash the same concatenation.
+      hasher.update([0u8]);
     }
     Ok(hasher.finalize().into())
   }
